@@ -196,7 +196,7 @@ def gen_config(prop, sub, run_id, n, shape):
         "faults": [],
         "pickle_at_put": rng.random() < 0.2,
     }
-    cfg["max_steps"] = cfg["chaos_steps"] + 150000 + 400 * n
+    cfg["max_steps"] = 150000 + 400 * n  # steps allowed after the chaos phase
     if prop == "C13":
         cfg["faults"] = gen_faults(rng, sub, n, batch)
     return cfg
@@ -367,7 +367,7 @@ def run_chunk(job):
             if shipped:
                 cfg = gen_config(prop, sub, run_id, wl["n"], (1000, shape[1], 16))
                 cfg["batch"] = None
-                cfg["max_steps"] = cfg["chaos_steps"] + 600000  # the cap is only meaningful in the calm phase
+                cfg["max_steps"] = 600000
                 d["shipped_batch_runs"] += 1
             else:
                 cfg = gen_config(prop, sub, run_id, wl["n"], shape)
